@@ -336,6 +336,12 @@ def r08a(P, R):
     for p, key, skey, kind, what, loc, node in deferred:
         rows = inherited_rows(P, P.fns[p], kind, what)
         if not rows:
+            if kind.startswith("RefCell::borrow"):
+                # a new dynamic borrow: it panics only if another borrow of the same cell is live at that moment, a question about the
+                # paths through the cell's users that this inventory does not answer for a cell it has not seen
+                R.undecided("R08-a", "unreviewed-borrow:" + skey, "new `%s` in %s: not in the panic table; whether a conflicting borrow can be "
+                            "live here is not decided" % (kind, p), loc=loc)
+                continue
             if kind in BOUNDS_KINDS:
                 # a bounds / zero check the table has not seen: whether the index is always in range is a value question this
                 # inventory cannot settle either way (string slicing by computed offsets is decided by R08-c)
